@@ -256,7 +256,7 @@ impl Prop for C18 {
 			ast::gen_schema(rng, cfg)
 		};
 		let env = Env::build(&schema);
-		let vcfg = ValCfg { max_len: 1 + rng.usize(5), max_depth: 4, budget: 6 + rng.below(30) as i32, str_boost: 0 };
+		let vcfg = ValCfg { max_len: 1 + rng.usize(5), max_depth: 4, budget: 6 + rng.below(30) as i32, str_boost: if rng.chance(1, 60) { 9000 } else { 0 } };
 		let v = val::gen_val(rng, &env, &schema, &vcfg);
 		let others = canonical_variants(rng, &schema);
 		Scn {
@@ -355,6 +355,33 @@ impl Prop for C18 {
 						other => {
 							out.fail("C18:format:reference-decoder-disagrees", format!("{other:?}"));
 							break;
+						}
+					}
+					// another spelling of the same schema (a forward reference): same canonical form, so the same
+					// fingerprint, and messages must be interchangeable
+					if let Some(fwd_json) = ast::to_json_forward(&scn.schema) {
+						match fwd_json.parse::<serde_avro_fast::Schema>() {
+							Ok(fwd) => {
+								out.count("forward_reference_spelling_checked", 1);
+								if fwd.rabin_fingerprint() != &fp {
+									out.fail(
+										"C18:format:same-schema-other-spelling-other-fingerprint",
+										format!("{} and {} denote the same schema (same canonical form) but get fingerprints {:02x?} and {:02x?}", ast::to_json(&scn.schema), fwd_json, fp, fwd.rabin_fingerprint()),
+									);
+									break;
+								}
+								let r = tls::decode_single_object_slice(&fwd, &env, &scn.schema, &msg, Target::capture(), limits);
+								out.evals += 1;
+								if r.res.as_ref().ok() != Some(&scn.val) {
+									out.fail("C18:intact:other-spelling-of-the-same-schema-rejects", format!("{:?}", r.res));
+									break;
+								}
+							}
+							Err(e) => {
+								// forward references are something the crate's parser documents as supported (C07's business if not)
+								out.count("forward_reference_spelling_rejected_by_parser", 1);
+								let _ = e;
+							}
 						}
 					}
 					if let Some(cf) = ast::canonical_form_plain(&scn.schema) {
